@@ -320,7 +320,7 @@ pub fn family_a_ipfix(max_body: usize) -> Arc<dyn Family> {
 
 pub fn corpus() -> Vec<(String, Vec<u8>)> {
     let mut v = vec![];
-    let dir = format!("{}/corpus", crate::engine::VERIF);
+    let dir = format!("{}/corpus", crate::engine::verif());
     let mut names: Vec<_> = std::fs::read_dir(&dir).map(|d| d.filter_map(|e| e.ok()).map(|e| e.path()).collect()).unwrap_or_default();
     names.sort();
     for p in names {
